@@ -8,8 +8,8 @@
    output under many suspension masks / Decl.Blocking / the skeleton of the emitted JavaScript with
    [run_direct], [run_flat (compile p)], [blocking_flags], [flatten]; it also evaluates [wf_progb (compile p)]. *)
 From Coq Require Import List ZArith Bool Arith.
-From Verif Require Import Model.C02_Blocking Model.C02_Flat Model.C02_Wf Model.C02_Hoist.
-From Verif Require Import Proofs.C02_Blocking Proofs.C02_Flat Proofs.C02_Compile Proofs.C02_Correct Proofs.C02_Hoist.
+From Verif Require Import Model.C02_Blocking Model.C02_Flat Model.C02_Wf Model.C02_Hoist Model.C02_P4_Range.
+From Verif Require Import Proofs.C02_Blocking Proofs.C02_Flat Proofs.C02_Compile Proofs.C02_Correct Proofs.C02_Hoist Proofs.C02_P4_Range.
 Import ListNotations.
 
 (* THE STATEMENT for the modelled fragment (stage 1: integer locals/globals, println, if/else, for with
@@ -182,4 +182,54 @@ Example C02_nonvacuous :
   run_flat (compile C02_example) never 1 200 0%nat [5] = Some ([0; 2], 10, [0]) /\
   run_flat (compile C02_example) (fun _ => true) 1 200 0%nat [5] = Some ([0; 2], 10, [0]) /\
   run_flat (compile C02_example) Nat.even 1 200 0%nat [5] = Some ([0; 2], 10, [0]).
+Proof. vm_compute. repeat split; reflexivity. Qed.
+
+(* ---- phase 4 (b): `for k = range s` over a slice of integer length (Model/C02_P4_Range.v).
+   [rexec]/[run_rdirect]: direct semantics of the source language extended with range (length captured once in the
+   frame slot `_ref`, hidden counter `_i`, key assigned at the top of each iteration, continue advances the counter);
+   [desugar]: the translator's own reduction of a range statement to translateLoopingStmt (init `_ref = s; _i = 0`,
+   cond `_i < _ref.$length`, body prefix `k = _i`, post `_i++`); [rcompile] = [compile] after that reduction.
+   For EVERY program of the extended language and EVERY schedule the resumable form computes what the direct
+   semantics computes.  `_partial` w.r.t. the property text only (switch, goto, defer, panics, closures are outside). *)
+Theorem C02_range_suspend_invariant_partial : forall rp sched nglob fuel main args o,
+  rsrc_ok rp = true ->
+  run_rdirect rp nglob fuel main args = Some o ->
+  exists fuel', run_flat (rcompile rp) sched nglob fuel' main args = Some o.
+Proof. exact range_suspend_invariant. Qed.
+Print Assumptions C02_range_suspend_invariant_partial.
+
+(* the reduction itself preserves the direct semantics, statement by statement, for any callee semantics *)
+Theorem C02_range_reduction_preserves_direct_semantics : forall callf n s loc w,
+  rexec callf n s loc w = exec callf false n (desugar s) loc w.
+Proof. exact rexec_desugar. Qed.
+Print Assumptions C02_range_reduction_preserves_direct_semantics.
+
+Theorem C02_range_compile_wf : forall rp, rsrc_ok rp = true -> wf_prog (rcompile rp).
+Proof. exact rcompile_wf. Qed.
+Print Assumptions C02_range_compile_wf.
+
+(* Non-vacuity: a labelled range loop whose length expression reads a variable that the body overwrites (captured
+   once), with a `continue` (counter must advance at the continue site), a yield and a blocking call in the body, a
+   labelled break, nested in a for loop whose post statement is a blocking call. *)
+Definition C02_range_example : rprog := [
+  {| rf_nparams := 1%nat; rf_body :=
+     RSeq (RAssign 1%nat (EConst 3))
+    (RSeq (RFor None (RAssign 5%nat (EConst 0)) (EBin OLt (EVar 5%nat) (EConst 2)) (RCall (Some 5%nat) 1%nat [EVar 5%nat])
+            (RRange false (Some 1%nat) (Some 2%nat) 3%nat 4%nat (EVar 1%nat)
+               (RSeq (RAssign 1%nat (EConst 1))
+               (RSeq (RIf (EBin OEq (EVar 2%nat) (EConst 1)) (RContinue None))
+               (RSeq RYield
+               (RSeq (RCall (Some 6%nat) 1%nat [EVar 2%nat])
+               (RSeq (RPrint (EBin OAdd (EBin OMul (EVar 5%nat) (EConst 10)) (EVar 6%nat)))
+                     (RIf (EBin OLt (EConst 20) (EVar 6%nat)) (RBreak (Some 1%nat))))))))))
+          (RReturn (EVar 2%nat))) |};
+  {| rf_nparams := 1%nat; rf_body := RSeq RYield (RReturn (EBin OAdd (EVar 0%nat) (EConst 1))) |} ].
+
+Example C02_range_nonvacuous :
+  rsrc_ok C02_range_example = true /\
+  wf_prog (rcompile C02_range_example) /\
+  run_rdirect C02_range_example 0 300 0%nat [0] = Some ([1; 3; 11], 0, []) /\
+  run_flat (rcompile C02_range_example) never 0 300 0%nat [0] = Some ([1; 3; 11], 0, []) /\
+  run_flat (rcompile C02_range_example) (fun _ => true) 0 300 0%nat [0] = Some ([1; 3; 11], 0, []) /\
+  run_flat (rcompile C02_range_example) Nat.even 0 300 0%nat [0] = Some ([1; 3; 11], 0, []).
 Proof. vm_compute. repeat split; reflexivity. Qed.
